@@ -40,6 +40,8 @@ structure Cfg where
   depth : Nat := 0                 -- `--depth`: 0 = unlimited, else the maximal number of steps of the whole run
   word : WordCfg := {}
   maxMem : Nat := 2 ^ 20           -- `MAX_MEMORY_SIZE` (constants.py)
+  balances : Bool := false         -- Model.SevmCalls: BALANCE / SELFBALANCE / value-bearing calls are followed (else stuck)
+  balZero : Bool := false          -- the initial balance array is `balance_00` (read as the literal 0), else `balance_0`
 
 /-- the symbolic transaction: what CALLER, CALLVALUE, … push, and the calldata read as 32-byte words -/
 structure Env where
@@ -82,6 +84,8 @@ inductive Tag where
   | stackLimit   -- the model's own: more than 1024 stack items (the code has no stack limit and would go on)
   | errKind      -- an exceptional halt whose *kind* is not the EVM's: LOG in a static frame with too few operands
                  -- (the code checks `is_static` before it pops; the EVM validates the stack first)
+  | staticValue  -- the model's own stop at a value-bearing CALL in a static frame (known finding: the code lets it
+                 -- succeed and moves the balance — `TODO: revert if context is static`; the EVM fails the frame)
   deriving DecidableEq, Repr
 
 structure EndState where
